@@ -27,6 +27,10 @@ PROPS["C01"] = dict(
         dict(layer="miri", monitor="c01", shards_quick=8, shards_thorough=16, budget_quick=64,
              budget_thorough=1600),
         dict(layer="asan", monitor="c01", shards_thorough=8, budget_thorough=200_000, tier="thorough"),
+        # the same question through the tokio / smol transports over real Unix sockets: a peer writes its frames
+        # and closes (or shuts down its sending side); the reader starts before or after the close
+        dict(layer="native", package="rt", monitor="c01", tag="real", shards_quick=8, shards_thorough=16,
+             budget_quick=20_000, budget_thorough=600_000),
     ],
 )
 
@@ -48,6 +52,10 @@ PROPS["C02"] = dict(
         dict(layer="native", monitor="c02", shards_quick=4, shards_thorough=16, budget_quick=48_000, budget_thorough=6_000_000),
         dict(layer="miri", monitor="c02", shards_quick=8, shards_thorough=16, budget_quick=32, budget_thorough=960),
         dict(layer="asan", monitor="c02", shards_thorough=8, budget_thorough=400_000, tier="thorough"),
+        # through the tokio / smol transports over real Unix sockets: what a raw peer reads from the kernel (messages
+        # and pipelines larger than the socket buffer, peer starts reading late) == the accepted messages
+        dict(layer="native", package="rt", monitor="c02", tag="real", shards_quick=8, shards_thorough=16,
+             budget_quick=1600, budget_thorough=40_000, timeout_quick=900),
     ],
 )
 
@@ -69,6 +77,9 @@ PROPS["C03"] = dict(
     steps=[
         dict(layer="native", monitor="c03", shards_quick=8, shards_thorough=16),
         dict(layer="miri", monitor="c03", shards_quick=8, shards_thorough=16),
+        # the bytes a raw peer reads from a real Unix socket (tokio / smol transports, partial kernel writes)
+        dict(layer="native", package="rt", monitor="c03", tag="real", shards_quick=8, shards_thorough=16,
+             budget_quick=1600, budget_thorough=40_000, timeout_quick=900),
     ],
 )
 
@@ -209,6 +220,9 @@ PROPS["C08"] = dict(
         dict(layer="native", monitor="c08", shards_quick=4, shards_thorough=16),
         dict(layer="miri", monitor="c08", shards_quick=8, shards_thorough=16, budget_quick=16, budget_thorough=128),
         dict(layer="asan", monitor="c08", shards_thorough=8, tier="thorough"),
+        # real runtimes and sockets: clients pipeline bursts whose answers exceed the socket buffer and read late
+        dict(layer="native", package="rt", monitor="c08", tag="real", shards_quick=8, shards_thorough=16,
+             budget_quick=1600, budget_thorough=48_000, timeout_quick=900),
     ],
 )
 
@@ -232,6 +246,9 @@ PROPS["C09"] = dict(
         dict(layer="small", monitor="c09", shards_quick=3, shards_thorough=6),
         dict(layer="miri", monitor="c09", shards_quick=13, shards_thorough=13),
         dict(layer="asan", monitor="c09", shards_thorough=8, tier="thorough"),
+        # real runtimes and sockets: subscribers of a notified state, some of which vanish
+        dict(layer="native", package="rt", monitor="c09", tag="real", shards_quick=8, shards_thorough=16,
+             budget_quick=16_000, budget_thorough=400_000, timeout_quick=900),
     ],
 )
 
@@ -255,6 +272,9 @@ PROPS["C10"] = dict(
         dict(layer="native", monitor="c10", shards_quick=4, shards_thorough=16),
         dict(layer="miri", monitor="c10", shards_quick=8, shards_thorough=16, budget_quick=16, budget_thorough=128),
         dict(layer="asan", monitor="c10", shards_thorough=8, tier="thorough"),
+        # real runtimes and sockets: one-shot streams that end (the connection resumes), state subscriptions
+        dict(layer="native", package="rt", monitor="c10", tag="real", shards_quick=8, shards_thorough=16,
+             budget_quick=2400, budget_thorough=60_000, timeout_quick=900),
     ],
 )
 
